@@ -1,5 +1,5 @@
 # replay of a bounded stand-in violation (C08): re-run native/c08_history.py
 import sys
-print("fock [['N2', 'D1', 'G1']]: running segment 0 of a valid history raised ValueError: axes don't match array")
+print("bosonic [['N1'], ['N1']]: running segment 1 of a valid history raised UnboundLocalError: cannot access local variable 'weights' where it is not associated with a value")
 print('REPLAY-VIOLATION')
 sys.exit(1)
